@@ -10,7 +10,7 @@ from ..selftest import Mutant
 
 ID = "C42"
 TECHNIQUE = "sibling agreement (K7) of the directory, tar and zip exporters: single entry source, per-kind dispatch, executable-bit handling, root prefixing; component-aware sub-directory filter (K2) (ast)"
-FLOOR = 14
+FLOOR = 17
 EX = "breezy/export.py"
 TAR = "breezy/archive/tar.py"
 ZIP = "breezy/archive/zip.py"
